@@ -10,8 +10,9 @@ import Econf.Lemmas.GrammarLemmas
   well-formedness predicates admit.
 
   Delimiter class covered by the proof: "non-blank" (`CfgWF.nonblank`, e.g. `=`, `:`, `=:`), the
-  class of every configuration file format the library is used for.  The blank and mixed classes and
-  a last line without line break are decided by the correspondence check only (DESIGN.md 10.4).
+  class of every configuration file format the library is used for; a last line without its line break
+  is covered by `C02_no_final_newline` (and, for any line at all, `parseLine_noeol`).  The blank and
+  mixed delimiter classes are decided by the correspondence check only (DESIGN.md 10.4).
 -/
 
 set_option linter.unusedSimpArgs false
@@ -121,6 +122,262 @@ theorem C02_entry_item (cfg : Cfg) (st : PState) (e : EntryI) (h : e.WF cfg) :
   rw [conts_fold e.cont _ st.entries _ rfl rfl rfl rfl]
   simp only [storeNew, trimKey_key cfg e h]
 
+
+
+/-! ### a last line without line break -/
+
+theorem mem_takeWhile_pos {α} (p : α → Bool) (l : List α) (x : α) (h : x ∈ l.takeWhile p) : p x = true := by
+  induction l with
+  | nil => cases h
+  | cons a as ih =>
+    rw [List.takeWhile_cons] at h
+    cases hp : p a
+    · simp [hp] at h
+    · simp only [hp] at h
+      rcases List.mem_cons.mp h with rfl | h
+      · exact hp
+      · exact ih h
+
+theorem cstr_texts (t : Str) (h : texts t) : cstr t = t := by
+  have := cstr_line t h
+  unfold cstr at this ⊢
+  have h2 := takeWhile_append_of_all (fun x => x != 0) t [] (by
+    intro x hx
+    have := h x hx
+    simp only [isText, Bool.and_eq_true, bne_iff_ne, ne_eq] at this
+    simpa using this.1)
+  simpa using h2
+
+theorem lineBody_noeol (t : Str) (h : texts t) : lineBody t = lineBody (t ++ [NL]) := by
+  unfold lineBody
+  rw [cstr_texts t h, cstr_line t h]
+  have h1 : (t ++ [NL]).getLast? = some NL := by simp
+  simp only [h1, beq_self_eq_true, if_true, List.dropLast_concat]
+  cases hl : t.getLast? with
+  | none => rfl
+  | some l =>
+    have : (l == NL) = false := by
+      have hm : l ∈ t := List.mem_of_getLast? hl
+      have := text_ne_NL h
+      cases hc : l == NL
+      · rfl
+      · have : l = NL := by simpa using hc
+        subst this; exact absurd hm (text_ne_NL h)
+    simp [this]
+
+/-- cutting at comment characters, then dropping one trailing line break: the same with and without
+    the line break -/
+theorem contText_noeol (py : Bool) (cm t : Str) (h : texts t) (hcm : NL ∉ cm) :
+    contText py cm (t ++ [NL]) = contText py cm t := by
+  unfold contText
+  cases py
+  · simp only [Bool.false_eq_true, if_false]
+    -- invariant of the fold: the two running texts are equal, or differ by the trailing line break
+    have key : ∀ (ks : Str) (o : Str), NL ∉ o → NL ∉ ks →
+        (ks.foldl (fun o c => o.takeWhile (· != c)) (o ++ [NL]) = ks.foldl (fun o c => o.takeWhile (· != c)) o ++ [NL] ∧
+          NL ∉ ks.foldl (fun o c => o.takeWhile (· != c)) o) ∨
+        (ks.foldl (fun o c => o.takeWhile (· != c)) (o ++ [NL]) = ks.foldl (fun o c => o.takeWhile (· != c)) o ∧
+          NL ∉ ks.foldl (fun o c => o.takeWhile (· != c)) o) := by
+      intro ks
+      induction ks with
+      | nil => intro o ho _; left; exact ⟨rfl, ho⟩
+      | cons k ks ih =>
+        intro o ho hk
+        have hkn : k ≠ NL := fun hh => hk (by rw [hh]; simp)
+        have hks : NL ∉ ks := fun hh => hk (List.mem_cons_of_mem _ hh)
+        simp only [List.foldl_cons]
+        have hsub : NL ∉ o.takeWhile (· != k) := fun hh => ho ((List.takeWhile_sublist _).subset hh)
+        by_cases hin : k ∈ o
+        · -- the cut is inside `o`: from here on both are the same text
+          have hcut : (o ++ [NL]).takeWhile (· != k) = o.takeWhile (· != k) := by
+            rw [List.takeWhile_append]
+            have : (o.takeWhile (· != k)).length ≠ o.length := by
+              intro hl
+              have heq : o.takeWhile (· != k) = o := by
+                have := List.takeWhile_sublist (fun x => x != k) (l := o)
+                exact this.eq_of_length hl
+              have hall : ∀ x ∈ o, (x != k) = true := by
+                intro x hx; rw [← heq] at hx; exact mem_takeWhile_pos (fun y => y != k) o x hx
+              have := hall k hin
+              simp at this
+            simp [this]
+          rw [hcut]
+          right
+          refine ⟨rfl, ?_⟩
+          have := ih (o.takeWhile (· != k)) hsub hks
+          rcases this with h | h <;> exact h.2
+        · have hall : ∀ x ∈ o, (fun x => x != k) x = true := by
+            intro x hx; simp only [bne_iff_ne, ne_eq]; intro hh; subst hh; exact hin hx
+          have h1 : o.takeWhile (· != k) = o := by
+            have := takeWhile_append_of_all (fun x => x != k) o [] hall; simpa using this
+          have h2 : (o ++ [NL]).takeWhile (· != k) = o ++ [NL] := by
+            rw [takeWhile_append_of_all _ _ _ hall]
+            have : (NL != k) = true := by simp only [bne_iff_ne, ne_eq]; exact fun hh => hkn hh.symm
+            simp [List.takeWhile_cons, this]
+          rw [h1, h2]
+          exact ih o ho hks
+    rcases key cm t (text_ne_NL h) hcm with ⟨h1, h2⟩ | ⟨h1, h2⟩
+    · rw [h1]
+      generalize List.foldl (fun o c => o.takeWhile (· != c)) t cm = r at h2
+      have hr : r.getLast? ≠ some NL := fun hh => h2 (List.mem_of_getLast? hh)
+      have : (r ++ [NL]).getLast? = some NL := by simp
+      simp only [this, beq_self_eq_true, if_true, List.dropLast_concat]
+      cases hl : r.getLast? with
+      | none => rfl
+      | some l =>
+        have : (l == NL) = false := by
+          cases hc : l == NL
+          · rfl
+          · have : l = NL := by simpa using hc
+            subst this; exact absurd hl hr
+        simp [this]
+    · rw [h1]
+  · simp only [if_true]
+    have h1 : (t ++ [NL]).getLast? = some NL := by simp
+    simp only [h1, beq_self_eq_true, if_true, List.dropLast_concat]
+    cases hl : t.getLast? with
+    | none => rfl
+    | some l =>
+      have : (l == NL) = false := by
+        cases hc : l == NL
+        · rfl
+        · have : l = NL := by simpa using hc
+          subst this; exact absurd (List.mem_of_getLast? hl) (text_ne_NL h)
+      simp [this]
+
+
+theorem isContinuation_org (cfg : Cfg) (st : PState) (o1 o2 : Str) (ds : Bool) (data : Str) (h : o1.head? = o2.head?) :
+    isContinuation cfg st o1 ds data = isContinuation cfg st o2 ds data := by
+  unfold isContinuation
+  cases o1 with
+  | nil => cases o2 with
+    | nil => rfl
+    | cons b bs => simp at h
+  | cons a as => cases o2 with
+    | nil => simp at h
+    | cons b bs => simp only [List.head?_cons, Option.some.injEq] at h; subst h; rfl
+
+theorem parseContent_org (cfg : Cfg) (st : PState) (o1 o2 name : Str) (h : o1.head? = o2.head?)
+    (hc : contText cfg.python cfg.comment o1 = contText cfg.python cfg.comment o2) :
+    parseContent cfg st o1 name = parseContent cfg st o2 name := by
+  unfold parseContent
+  cases name with
+  | nil => rfl
+  | cons m0 mrest =>
+    simp only
+    split
+    · rfl
+    · split
+      · rfl
+      · unfold parseEntry
+        simp only [isContinuation_org cfg st o1 o2 _ _ h, hc]
+
+/-- **a line reads the same with and without its line break** (every state, every line of text) -/
+theorem parseLine_noeol (cfg : Cfg) (st : PState) (t : Str) (ht : texts t) (hne : t ≠ []) (hcm : NL ∉ cfg.comment) :
+    parseLine cfg st t = parseLine cfg st (t ++ [NL]) := by
+  unfold parseLine
+  rw [← lineBody_noeol t ht, cstr_texts t ht, cstr_line t ht]
+  cases lineBody t with
+  | nil => rfl
+  | cons n0 nrest =>
+    simp only
+    split
+    · rfl
+    · apply parseContent_org
+      · cases t with
+        | nil => exact absurd rfl hne
+        | cons a as => rfl
+      · exact (contText_noeol cfg.python cfg.comment t ht hcm).symm
+
+/-- the lines of a text whose last line lost its line break -/
+theorem splitLines_noeol (ls : List Str) (t : Str) (h : ∀ l ∈ ls, IsLine l) (ht : texts t) (hne : t ≠ []) :
+    splitLines (ls.flatten ++ t) = ls ++ [t] := by
+  rw [splitLines_lines_append ls t h]
+  congr 1
+  -- one line without line break
+  have : ∀ t : Str, NL ∉ t → t ≠ [] → splitLines t = [t] := by
+    intro t
+    induction t with
+    | nil => intro _ h; exact absurd rfl h
+    | cons a as ih =>
+      intro hn _
+      have ha : (a == NL) = false := by
+        cases hc : a == NL
+        · rfl
+        · have : a = NL := by simpa using hc
+          exact absurd (by rw [this]; simp) hn
+      unfold splitLines
+      simp only [ha, Bool.false_eq_true, if_false]
+      cases as with
+      | nil => simp [splitLines]
+      | cons b bs =>
+        rw [ih (fun hh => hn (List.mem_cons_of_mem _ hh)) (by simp)]
+  exact this t (text_ne_NL ht) hne
+
+
+theorem parseLines_snoc (cfg : Cfg) (st S : PState) (L0 : List Str) (last : Str)
+    (h : parseLines cfg st (L0 ++ [last]) = .ok S) :
+    ∃ S0, parseLines cfg st L0 = .ok S0 ∧ parseLine cfg S0 last = .ok S := by
+  rw [parseLines_append] at h
+  cases h0 : parseLines cfg st L0 with
+  | error e => rw [h0] at h; cases h
+  | ok S0 =>
+    rw [h0] at h
+    simp only [parseLines] at h
+    cases h1 : parseLine cfg S0 last with
+    | error e => rw [h1] at h; cases h
+    | ok S1 => rw [h1] at h; simp only [Except.ok.injEq] at h; subst h; exact ⟨S0, rfl, h1⟩
+
+theorem parseBytes_of_lines (cfg : Cfg) (content : Str) (st : PState)
+    (h : parseLines cfg.eff {} (splitLines content) = .ok st) (hj : cfg.join = false) : parseBytes cfg content = .ok st := by
+  unfold parseBytes
+  unfold Cfg.eff at h
+  rw [hj] at h
+  simp only [hj, h, Bool.false_eq_true, if_false]
+
+/-- **C02 without the final line break**: the file whose last line lost its line break parses to the
+    same entries and sections (exactly the same state when that last line is not empty) -/
+theorem C02_no_final_newline (cfg : Cfg) (doc : List Item) (hw : CfgWF cfg.eff) (h : ∀ it ∈ doc, it.WF cfg.eff)
+    (hj : cfg.join = false) (hne : doc ≠ []) :
+    ∃ st, parseBytes cfg (render doc).dropLast = .ok st ∧
+      st.entries = (expDoc doc).entries ∧ st.groups = (expDoc doc).groups ∧ st.curGroup = (expDoc doc).curGroup := by
+  have hlines := lines_of_doc cfg.eff hw doc h
+  have hp := parse_doc cfg.eff hw doc {} h
+  have hLne : renderLines doc ≠ [] := by
+    cases doc with
+    | nil => exact absurd rfl hne
+    | cons it its =>
+      unfold renderLines
+      rw [List.flatMap_cons]
+      cases it <;> simp [Item.lines]
+  rcases List.eq_nil_or_concat (renderLines doc) with hnil | ⟨L0, last, hL⟩
+  · exact absurd hnil hLne
+  rw [List.concat_eq_append] at hL
+  obtain ⟨t, rfl, ht⟩ := hlines last (by rw [hL]; simp)
+  have hL0 : ∀ l ∈ L0, IsLine l := fun l hl => hlines l (by rw [hL]; simp [hl])
+  rw [hL] at hp
+  obtain ⟨S0, hp0, hp1⟩ := parseLines_snoc cfg.eff {} _ L0 _ hp
+  have hcm : NL ∉ cfg.eff.comment := fun hh => by
+    have := hw.kb NL hh; simp [isSpace, NL] at this
+  have hrender : (render doc).dropLast = L0.flatten ++ t := by
+    unfold render
+    rw [hL, List.flatten_append, List.flatten_cons, List.flatten_nil, List.append_nil, ← List.append_assoc, List.dropLast_concat]
+  rw [hrender]
+  by_cases hte : t = []
+  · subst hte
+    have hblank : parseLine cfg.eff S0 ([] ++ [NL]) = .ok { S0 with line := S0.line + 1 } := by
+      unfold parseLine; rfl
+    rw [hblank] at hp1
+    simp only [Except.ok.injEq] at hp1
+    refine ⟨S0, parseBytes_of_lines cfg _ S0 (by rw [List.append_nil, splitLines_lines L0 hL0]; exact hp0) hj, ?_, ?_, ?_⟩ <;>
+      (unfold expDoc; rw [← hp1])
+  · have hpl : parseLines cfg.eff {} (L0 ++ [t]) = .ok (expDoc doc) := by
+      rw [parseLines_append, hp0]
+      simp only [parseLines, parseLine_noeol cfg.eff S0 t ht hte hcm, hp1]
+      rfl
+    exact ⟨_, parseBytes_of_lines cfg _ _ (by rw [splitLines_noeol L0 t hL0 ht hte]; exact hpl) hj, rfl, rfl, rfl⟩
+
+
 /-! ### the hypotheses are satisfiable: a concrete document of the grammar -/
 
 def exCfg : Cfg := { delim := [0x3d], comment := [] }
@@ -161,5 +418,10 @@ example : (expDoc exDoc).entries.map (fun e => (e.group, e.key, e.value, e.quote
 /-- the concrete document, through the theorem -/
 example : parseBytes exCfg (render exDoc) = .ok (expDoc exDoc) :=
   C02_parse_render_plain exCfg exDoc exCfg_wf exDoc_wf rfl
+
+/-- the concrete document without its final line break -/
+example : ∃ st, parseBytes exCfg (render exDoc).dropLast = .ok st ∧ st.entries = (expDoc exDoc).entries ∧
+    st.groups = (expDoc exDoc).groups ∧ st.curGroup = (expDoc exDoc).curGroup :=
+  C02_no_final_newline exCfg exDoc exCfg_wf exDoc_wf rfl (by decide)
 
 end Econf
